@@ -156,12 +156,22 @@ def run(tier, seed):
     if tier == "quick":
         pairs = rng.sample(pairs, 12000)
     true_count, complete_miss = 0, 0
-    for outer, inner in pairs:
-        frame = frames[rng.randrange(len(frames))]
-        res = bool(make(outer, frame).containsRegion(make(inner, frame)))
-        true_count += res
-        events_cr.append({"k": "cr", "outer": spec_region(outer), "inner": spec_region(inner),
-                          "res": res, "frame": list(frame)})
+
+    def extent(pair):
+        reg = pair[0]
+        return reg[3] if reg[0] == "circ" else max(reg[3] - reg[1], reg[4] - reg[2])
+    # An answer must not depend on which regions were asked before: a sub-sample is asked in an
+    # adversarial order first (largest outer regions first: these are the first containsRegion
+    # calls of the process), then the sample in random order, then the sub-sample smallest first.
+    again = rng.sample(pairs, 20000) if tier == "thorough" else pairs[:2500]
+    for ordered in (sorted(again, key=lambda p: -extent(p)), pairs, sorted(again, key=extent)):
+        for outer, inner in ordered:
+            frame = frames[rng.randrange(len(frames))]
+            res = bool(make(outer, frame).containsRegion(make(inner, frame)))
+            if ordered is pairs:
+                true_count += res
+            events_cr.append({"k": "cr", "outer": spec_region(outer), "inner": spec_region(inner),
+                              "res": res, "frame": list(frame)})
     events = events_pt + events_cr
     size = 400
     traces = [{"id": n + 1, "pmax": PMAX, "ev": events[k:k + size]}
